@@ -8,11 +8,11 @@ E = M + "entry::"
 META = {
     "explanation": "R1 tables: token -> timestamp kind (-atime/-amin access, -ctime/-cmin status change, -mtime/-mmin modification), token -> matcher (days vs minutes), kind -> Metadata accessor (accessed/changed/modified; changed = st_ctime with nanoseconds), -newer/-anewer/-cnewer -> (m,m)/(a,m)/(c,m), -newerXY -> regex groups (1,2); "
                    "R2 periods: the age is one duration_since between the injected start time and the file's timestamp taken at full resolution, truncated to whole seconds, then divided (truncating) by the constant 86400 resp. 60; "
-                   "R3 single clock: SystemTime::now is read only when the dependencies object is created, Dependencies::now returns that stored value, matchers obtain 'now' only through MatcherIO::now; no other clock API in any matches(); "
+                   "R2 also: what is compared with N is the truncated quotient plus a correction that is -1 only for a timestamp in the future, else 0; R3 single clock: SystemTime::now is read only when the dependencies object is created, Dependencies::now returns that stored value, matchers obtain 'now' only through MatcherIO::now; no other clock API in any matches(); "
                    "R4 strictness of -newer: the verdict is duration_since(reference, entry).is_err() (entry strictly later) or a strict comparison in the same orientation, on the entry's modification time vs the reference's, reference stat'ed follow-mode-aware at parse time; "
                    "R5 -newerXY provenance: selector X is applied to the entry's record at match time, selector Y to the reference file's record at construction, and the verdict compares exactly those two timestamps, strictly",
     "decides": "which timestamp each token reads, the period constants and that truncation happens after the full-resolution difference, that 'now' is fixed once, the orientation/strictness of -newer, and that -newerXY uses X on the entry and Y on the reference",
-    "does_not_decide": "sub-second arithmetic inside std::time; the negative-age (future timestamp) adjustment and -daystart; -newerXt date parsing",
+    "does_not_decide": "sub-second arithmetic inside std::time; the interplay of the future-timestamp correction with -daystart; -newerXt date parsing",
 }
 
 KIND = {"-atime": "Accessed", "-amin": "Accessed", "-ctime": "Changed", "-cmin": "Changed", "-mtime": "Modified", "-mmin": "Modified"}
